@@ -170,12 +170,38 @@ func decideWith(ob *Obligation, timeoutS int, all bool, dumpDir string, choice m
 		// proof hints: the pruning level that worked last time is tried first (an optimisation only: every answer is
 		// still the solver's, and the full sequence follows when the hint does not work)
 		hkey := hintKey(ob, choice)
+		hinted := -1
 		if h, ok := getHint(hkey); ok && h >= 0 && h < len(levels) {
+			hinted = 0
 			levels = append([]scriptOpts{levels[h]}, levels...)
 		} else if ok && h == 5 {
-			levels = nil // last time only the complete script was decided
+			// last time only the complete script was decided: try that first, then fall back to the usual sequence
+			rs := raceUnsat(solvers, func(cfg solverCfg) string {
+				if cfg.cvc5 {
+					return vc.script(ob, scriptOpts{model: true, cvc5: true, noPrune: true, choice: choice})
+				}
+				return full
+			}, timeoutS)
+			for _, r := range rs {
+				ob.Tried = append(ob.Tried, fmt.Sprintf("%s:%s:%.2fs", r.solver, r.status, r.secs))
+				ob.TimeS += r.secs
+			}
+			if r := rs[0]; r.status == "unsat" {
+				ob.Status, ob.Solver, ob.SMTSize = "discharged", r.solver, len(full)
+				return
+			}
+		}
+		// two passes over the pruning levels: a quick one (most proofs on a pruned script take well under a second),
+		// then - only if nothing was discharged - a patient one with the full per-solver budget
+		nl := len(levels)
+		if !ob.Short {
+			levels = append(levels, levels...)
 		}
 		for li, o := range levels {
+			patient := li >= nl || li == hinted
+			if li >= nl {
+				prev = ""
+			}
 			o.choice = choice
 			sc := vc.script(ob, o)
 			if sc == prev || len(sc) >= len(full) {
@@ -183,16 +209,9 @@ func decideWith(ob *Obligation, timeoutS int, all bool, dumpDir string, choice m
 			}
 			prev = sc
 			t := timeoutS
-			if t > 4 {
-				t = 4
+			if !patient && t > 2 {
+				t = 2
 			}
-			if o.rounds == 2 || o.rounds == 4 {
-				// the proofs that succeed on a heavily pruned script do so within a second or two
-				if t > 2 {
-					t = 2
-				}
-			}
-			_ = li
 			if ob.Short && (o.rounds == 4 || o.rounds == 8) {
 				continue
 			}
